@@ -53,6 +53,9 @@ pub struct ElfSpec {
     /// an empty PT_NOTE program header (p_filesz == p_memsz == 0) ahead of the one holding the build id
     #[serde(default)]
     pub empty_note_first: bool,
+    /// rotation of the section-name order inside .shstrtab (which name comes last matters)
+    #[serde(default)]
+    pub shstr_rotation: u8,
 }
 
 #[derive(Debug, Clone)]
@@ -205,7 +208,9 @@ pub fn build(spec: &ElfSpec) -> Built {
     // shstrtab
     let mut shstr: Vec<u8> = vec![0];
     let mut names = std::collections::BTreeMap::new();
-    for n in [".text", ".note.gnu.build-id", ".shstrtab", ".dynamic", ".dynstr"] {
+    let mut name_order = [".text", ".note.gnu.build-id", ".shstrtab", ".dynamic", ".dynstr"];
+    name_order.rotate_left(spec.shstr_rotation as usize % 5);
+    for n in name_order {
         names.insert(n, shstr.len());
         shstr.extend_from_slice(n.as_bytes());
         shstr.push(0);
